@@ -325,6 +325,7 @@ def brute_force(real, call, limit=40000):
         val = err + pen + float(prof.minor_add) / 2 * len(novel)
         if best is None or val < best:
             best = val
+            brute_force.last = [(maj, mino, sorted(map(str, kept)), sorted(map(str, add))) for maj, (mino, kept, add, nmiss) in slots]
     return best
 
 
